@@ -399,3 +399,40 @@ def range_bounds(facts: list[tuple[str, bool]], var: str) -> tuple[bool, set[str
             elif k is ast.Lt:
                 upper.add(rt[:-4] if rt.endswith(" + 1") else f"{rt} - 1")
     return nonneg, upper
+
+
+def norm_fact(t: ast.AST | str, pol: bool) -> tuple[str, bool]:
+    """Canonical (text, polarity) of an atomic fact: negative comparison operators are expressed by polarity
+    (`x is not None`:T == `x is None`:F, `a != b`:T == `a == b`:F, `k not in s`:T == `k in s`:F) and `not e` is
+    unwrapped."""
+    if isinstance(t, str):
+        try:
+            t = ast.parse(t, mode="eval").body
+        except SyntaxError:
+            return t, pol  # type: ignore[return-value]
+    while isinstance(t, ast.UnaryOp) and isinstance(t.op, ast.Not):
+        t, pol = t.operand, not pol
+    if isinstance(t, ast.Compare) and len(t.ops) == 1:
+        swap = {ast.IsNot: ast.Is, ast.NotEq: ast.Eq, ast.NotIn: ast.In}
+        k = type(t.ops[0])
+        if k in swap:
+            t = ast.Compare(left=t.left, ops=[swap[k]()], comparators=t.comparators)
+            pol = not pol
+    return unparse(t), pol
+
+
+def norm_facts(facts) -> set[tuple[str, bool]]:
+    out = set()
+    for t, p in facts:
+        if not isinstance(t, str):
+            for c, q in conjuncts(t, p):
+                out.add(norm_fact(c, q))
+        else:
+            try:
+                e = ast.parse(t, mode="eval").body
+            except SyntaxError:
+                out.add((t, p))
+                continue
+            for c, q in conjuncts(e, p):
+                out.add(norm_fact(c, q))
+    return out
